@@ -46,10 +46,18 @@ def gen_case(seed):
             if size < 2:
                 continue
             k = g.rint((1, size - 1))
-            p1 = ("sub", sub, ((kname, ("slice", "p", 0, k, 1, size)),))
-            other = ("ten", sub[1], sub[2], sub[3], g.real_data(g.numel([s_ for n, s_ in sub[1]])), False)
-            p2 = ("sub", other, ((kname, ("slice", "p", k, size, 1, size)),))
-            w = ("cat", kname, (p1, p2), "p")
+            pn = g.pick(["p", kname])
+            mk = lambda: ("ten", sub[1], sub[2], sub[3], g.real_data(g.numel([s_ for n, s_ in sub[1]])), False)  # noqa: E731
+            if size >= 3 and g.chance(0.6):
+                cuts = [0, 1, 2, size]
+                srcs = [sub, mk(), mk()]
+                g.src.r.shuffle(srcs) if hasattr(g.src, "r") else None
+                parts_ = tuple(("sub", t_, ((kname, ("slice", pn, cuts[i], cuts[i + 1], 1, size)),)) for i, t_ in enumerate(srcs))
+                w = ("cat", kname, parts_, pn)
+            else:
+                p1 = ("sub", sub, ((kname, ("slice", pn, 0, k, 1, size)),))
+                p2 = ("sub", mk(), ((kname, ("slice", pn, k, size, 1, size)),))
+                w = ("cat", kname, (p1, p2), pn)
         try:
             cand = replace_at(node, path, w)
             typeof(cand)
@@ -88,6 +96,73 @@ def gen_case(seed):
     return {"sem": sem, "ast": node, "optimizer": src.pick([False, False, True])}
 
 
+def gen_case2(seed):
+    """Explicit sum-of-products: 2-5 wrapped leaves multiplied together, every name reduced
+    (in one or two nested reductions)."""
+    src = SeedSource(seed)
+    sem = src.pick(SEMS)
+    s, p = sem
+    g = G(src, Opts(semiring=sem, max_names=4))
+    names = sorted(g.sizes)
+    for n in names:
+        g.sizes[n] = src.pick([2, 3, 3, 2, 1])
+    nl = g.rint((2, 5))
+    factors = []
+    for _ in range(nl):
+        ins = g.subset(names, 1, 3)
+        leaf = ("ten", tuple((n, g.sizes[n]) for n in ins), (), "real", g.real_data(g.numel([g.sizes[n] for n in ins])), False)
+        r = g.rint((0, 9))
+        kname = g.pick(ins)
+        size = g.sizes[kname]
+        if r <= 3:
+            w = leaf
+        elif r == 4:
+            # rename a private input onto a name other factors use (possibly one the leaf keeps: a diagonal)
+            cands = [n for n in names if g.sizes[n] == size and n != kname]
+            if cands:
+                priv = g.fresh(size)
+                leaf = ("ten", tuple((priv if n == kname else n, sz) for n, sz in leaf[1]), (), "real", leaf[4], False)
+                w = ("sub", leaf, ((priv, ("pyname", g.pick(cands))),))
+            else:
+                w = leaf
+        elif r == 5:
+            w = ("sub", leaf, ((kname, g.slice_node(set(names), size)),))
+        elif r == 6:
+            other = g.fresh(size)
+            w = ("sub", leaf, ((kname, ("ten", ((other, size),), (), size, tuple(g.perm(list(range(size)))), False)),))
+        else:
+            if size < 2:
+                w = leaf
+            else:
+                pn = g.pick(["p", kname])
+                mk = lambda: ("ten", leaf[1], (), "real", g.real_data(g.numel([sz for n, sz in leaf[1]])), False)  # noqa: E731
+                cuts = [0, 1, 2, size] if size >= 3 and g.chance(0.7) else [0, g.rint((1, size - 1)), size]
+                srcs = g.perm([leaf] + [mk() for _ in range(len(cuts) - 2)])
+                parts_ = tuple(("sub", t_, ((kname, ("slice", pn, cuts[i], cuts[i + 1], 1, size)),)) for i, t_ in enumerate(srcs))
+                w = ("cat", kname, parts_, pn)
+        try:
+            typeof(w)
+        except Exception:
+            w = leaf
+        factors.append(w)
+    node = factors[0]
+    for f in factors[1:]:
+        node = ("bin", p, node, f) if g.chance(0.5) else ("bin", p, f, node)
+    try:
+        free = typeof(node)[0]
+    except Exception:
+        return gen_case(seed)
+    fnames = sorted(free)
+    if fnames and g.chance(0.4) and len(fnames) > 1:
+        k = g.rint((1, len(fnames) - 1))
+        inner = g.perm(fnames)[:k]
+        node = ("red", s, node, tuple((n, free[n][0]) for n in inner))
+        fnames = [n for n in fnames if n not in inner]
+    if fnames:
+        node = ("red", s, node, tuple((n, free[n][0]) for n in fnames))
+    return {"sem": sem, "ast": node, "optimizer": src.pick([False, False, True])}
+
+
 class C11(Prop):
     id = "C11"
     rule = (
@@ -105,7 +180,7 @@ class C11(Prop):
     cases = {"quick": 1000, "thorough": 40000}
 
     def strategy(self, tier):
-        return st.integers(0, 2**40).map(gen_case)
+        return st.one_of(st.integers(0, 2**40).map(gen_case), st.integers(0, 2**40).map(gen_case2), st.integers(0, 2**40).map(gen_case2))
 
     @staticmethod
     def has_binary_sum(case):
@@ -131,31 +206,34 @@ class C11(Prop):
 
     @staticmethod
     def reuses_bound_name(case):
-        """Second open known-finding class: the same name bound at two binders (or bound and free)."""
+        """Second open known-finding class: the same name bound by two reductions of one expression."""
         b = [x for n in walk(case["ast"]) if n[0] == "red" for x, sz in n[3]]
-        others = [x for n in walk(case["ast"]) if n[0] in ("sub",) for x, v in n[2]]
-        return len(b) != len(set(b)) or bool(set(b) & set(others))
+        return len(b) != len(set(b))
 
     @staticmethod
     def coupled_substitutions(case):
         """Third open known-finding class: two substitution values (in one map or in stacked maps)
-        mention the same variable, or a value mentions an input the substituted term keeps - the
-        substitution is a diagonal embedding, which the per-node Scatter adjoint decouples."""
-        seen = []
+        mention the same variable - a diagonal embedding spread over several substitutions, which
+        the per-node Scatter adjoint decouples.  (A single renaming onto a kept input is NOT in
+        this class: head handles it.)"""
+        def value_names(v):
+            return {v[1]} if v[0] in ("pyname", "var", "slice") else (set(typeof(v)[0]) if v[0] not in ("pynum", "num") else set())
+
         for n in walk(case["ast"]):
             if n[0] != "sub":
                 continue
-            inp = typeof(n[1])[0]
-            keys = {k for k, v in n[2] if k in inp}
-            for k, v in n[2]:
-                if k not in inp:
-                    continue
-                names = {v[1]} if v[0] in ("pyname", "var", "slice") else (set(typeof(v)[0]) if v[0] not in ("pynum", "num") else set())
-                if names & (set(inp) - keys):
-                    return True
-                seen.append(names)
-        flat = [x for s_ in seen for x in s_]
-        return len(flat) != len(set(flat))
+            # the chain of directly stacked substitutions starting at n
+            names = []
+            m = n
+            while m[0] == "sub":
+                inp = typeof(m[1])[0]
+                for k, v in m[2]:
+                    if k in inp:
+                        names.extend(sorted(value_names(v)))
+                m = m[1]
+            if len(names) != len(set(names)):
+                return True
+        return False
 
     known_predicates = {
         "adjoint-sum-branch-multiplicity": lambda case, v: v.bucket.startswith("adjoint-value") and C11.has_binary_sum(case),
